@@ -1,9 +1,9 @@
 (* C09 round trip, RFC 8888: what the C08 models of streamLog.metricsAfter /
    Recorder.BuildReport (Model/StreamLog.v, Model/Rfc8888Recorder.v) emit, decoded
    by the C09 model of cc.FeedbackAdapter.OnRFC8888Feedback (Model/FbAdapter.v). *)
-From IV Require Import Base.Word Model.FbAdapter Proofs.FbAdapterProofs.
+From IV Require Import Base.Word Model.FbAdapter Model.RtpfbConvert Proofs.FbAdapterProofs.
 From IV Require Import Model.StreamLog Model.Rfc8888Recorder Spec.Rfc8888Spec Proofs.StreamLogProofs Proofs.Rfc8888Proofs.
-From Coq Require Import ZifyBool.
+From Coq Require Import ZifyBool Sorted.
 Ltac Zify.zify_post_hook ::= Z.div_mod_to_equations.
 
 (* what the adapter must return for the stream log entry of number i (log = the
@@ -18,6 +18,15 @@ Definition stream_ack (h : hist) (rt ref ssrc : Z) (log : list entry) (i : Z) : 
       | Some (ts, ecn) => [set_arr_ecn a (rt - ato_ns (ato_spec ref ts)) ecn]
       | None => [a]
       end
+  end.
+
+(* what pkg/rtpfb must extract for the stream log entry of number i: (sequence number, arrived,
+   arrival, ECN); ato 0x1FFF (arrival after the report time) reads as the zero time *)
+Definition stream_fack (rt ref : Z) (log : list entry) (i : Z) : fack :=
+  match lfind i log with
+  | Some (ts, ecn) =>
+      (u16 i, true, (if ato_spec ref ts =? 8191 then 0 else rt - ato_spec ref ts * 1000000000 / 1024), ecn)
+  | None => (u16 i, false, 0, 0)
   end.
 
 Section RT.
@@ -97,6 +106,30 @@ Section RT.
     unfold rec_build. destruct r as [|x tl]; [intros H; inversion H; reflexivity|].
     intros H. cbv zeta. apply (roundtrip_rfc8888_metrics _ _ _ _ _ _ _ H).
   Qed.
+
+  (* ---- the same block decoded by pkg/rtpfb's convertCCFB (convertMetricBlock) ---- *)
+  Lemma convert_mblocks_mbof rt ref log : forall n i,
+    convert_mblocks rt (u16 i) (map (mbof atok ref log) (zrange i n)) =
+    map (stream_fack rt ref log) (zrange i n).
+  Proof.
+    induction n as [|n IH]; intros i; cbn [zrange map]; [reflexivity|].
+    unfold mbof at 1. unfold stream_fack at 1.
+    destruct (lfind i log) as [[ts ecn]|]; cbn [convert_mblocks];
+      replace (add16 (u16 i) 1) with (u16 (i + 1)) by (unfold add16, u16; lia); rewrite IH.
+    - rewrite (ato_exact atok Hexact). reflexivity.
+    - reflexivity.
+  Qed.
+
+  Theorem roundtrip_rfc8888_rtpfb_block rt s ref budget :
+    sl_log s <> [] ->
+    let b := snd (metrics_after atok s ref budget) in
+    fst (fst b) = sl_ssrc s /\
+    convert_mblocks rt (snd (fst b)) (snd b) =
+    map (stream_fack rt ref (trunc_log s budget)) (zrange (trunc_next s budget) (range_cnt s budget)).
+  Proof.
+    intros Hne. destruct (metrics_after_spec atok s ref budget Hne) as (log2 & E & _).
+    cbv zeta. rewrite E. cbn [fst snd]. split; [reflexivity|]. apply convert_mblocks_mbof.
+  Qed.
 End RT.
 
 (* the decoded arrival time: the report was built at [ref] for a packet that arrived at [ts],
@@ -110,3 +143,145 @@ Proof.
   replace (ref <? ts) with false by lia. cbv zeta.
   replace (1024 * (ref - ts) >? 8189 * 1000000000) with false by lia. lia.
 Qed.
+
+(* ---------- the whole report through pkg/rtpfb's convertCCFB ---------- *)
+
+(* streams of a recorder: keyed by strictly increasing SSRC, each log carrying its key *)
+Definition keys_ok (r : recorder) : Prop :=
+  StronglySorted Z.lt (map fst r) /\ Forall (fun ks : Z * slog => sl_ssrc (snd ks) = fst ks) r.
+
+Lemma sl_add_ssrc s ts seq ecn : sl_ssrc (sl_add s ts seq ecn) = sl_ssrc s.
+Proof.
+  unfold sl_add. destruct (IV.Model.Unwrapper.unwrap (sl_seq s) seq) as [st' u].
+  destruct (u <? _); [reflexivity|]. destruct (lfind u (sl_log s)); reflexivity.
+Qed.
+
+Lemma rec_add_keys ts ssrc seq ecn : forall r x,
+  In x (map fst (rec_add r ts ssrc seq ecn)) -> x = ssrc \/ In x (map fst r).
+Proof.
+  induction r as [|[k s] tl IH]; intros x H; cbn [rec_add map fst] in H.
+  - destruct H as [<-|[]]. now left.
+  - destruct (ssrc <? k); [cbn [map fst] in H; destruct H as [<-|H]; [now left|now right]|].
+    destruct (ssrc =? k); [now right|]. cbn [map fst] in H. destruct H as [<-|H]; [right; now left|].
+    destruct (IH _ H) as [->|H']; [now left|right; now right].
+Qed.
+
+Lemma rec_add_keys_ok ts ssrc seq ecn : forall r, keys_ok r -> keys_ok (rec_add r ts ssrc seq ecn).
+Proof.
+  induction r as [|[k s] tl IH]; intros [Hs Hk]; cbn [rec_add].
+  - split; [repeat constructor|constructor; [apply sl_add_ssrc|constructor]].
+  - cbn [map fst] in Hs. apply StronglySorted_inv in Hs as [Hs Hf]. inversion Hk as [|? ? Hk1 Hk2]; subst. cbn [fst snd] in Hk1.
+    destruct (ssrc <? k) eqn:E1.
+    + split.
+      * cbn [map fst]. constructor; [constructor; assumption|].
+        constructor; [lia|]. eapply Forall_impl; [|exact Hf]. cbn. intros a Ha. lia.
+      * constructor; [apply sl_add_ssrc|exact Hk].
+    + destruct (ssrc =? k) eqn:E2.
+      * split; [cbn [map fst]; constructor; assumption|]. constructor; [cbn [fst snd]; rewrite sl_add_ssrc; exact Hk1|exact Hk2].
+      * destruct (IH (conj Hs Hk2)) as [Hs' Hk'].
+        split; [|constructor; assumption]. cbn [map fst]. constructor; [exact Hs'|].
+        apply Forall_forall. intros x Hx. apply rec_add_keys in Hx as [->|Hx]; [lia|].
+        rewrite Forall_forall in Hf. apply Hf, Hx.
+Qed.
+
+Section Report.
+  Variable atok : Z -> bool * Z.
+  Hypothesis Hexact : exact_kernel atok.
+
+  Lemma metrics_after_ssrc s ref B : sl_ssrc (fst (metrics_after atok s ref B)) = sl_ssrc s /\
+                                     fst (fst (snd (metrics_after atok s ref B))) = sl_ssrc s.
+  Proof.
+    destruct (sl_log s) eqn:El.
+    - rewrite metrics_after_empty by exact El. split; reflexivity.
+    - destruct (metrics_after_spec atok s ref B) as (log2 & E & _); [congruence|]. rewrite E. split; reflexivity.
+  Qed.
+
+  Lemma rec_metrics_keys now B : forall r r' rep,
+    rec_metrics atok r now B = (r', rep) -> keys_ok r ->
+    keys_ok r' /\ map fst r' = map fst r /\ map (fun b : rblock => fst (fst b)) rep = map fst r.
+  Proof.
+    induction r as [|[k s] tl IH]; intros r' rep H [Hs Hk]; cbn [rec_metrics] in H.
+    - inversion H; subst. split; [split; constructor|split; reflexivity].
+    - pose proof (metrics_after_ssrc s now B) as [M1 M2].
+      destruct (metrics_after atok s now B) as [s' b] eqn:Em. cbn [fst snd] in M1, M2.
+      destruct (rec_metrics atok tl now B) as [tl' bs] eqn:Er. inversion H; subst r' rep; clear H.
+      cbn [map fst] in Hs. apply StronglySorted_inv in Hs as [Hs Hf]. inversion Hk as [|? ? Hk1 Hk2]; subst. cbn [fst snd] in Hk1.
+      destruct (IH _ _ eq_refl (conj Hs Hk2)) as ([Hs' Hk'] & Hm & Hb).
+      split; [split|split].
+      + cbn [map fst]. rewrite Hm. constructor; [rewrite <- Hm; exact Hs'|exact Hf].
+      + constructor; [cbn [fst snd]; congruence|exact Hk'].
+      + cbn [map fst]. rewrite Hm. reflexivity.
+      + cbn [map fst]. rewrite Hb, M2, Hk1. reflexivity.
+  Qed.
+
+  Lemma sorted_NoDup l : StronglySorted Z.lt l -> NoDup l.
+  Proof.
+    induction 1 as [|a l Hs IH Hf]; constructor; [|exact IH].
+    intros Hin. rewrite Forall_forall in Hf. specialize (Hf _ Hin). lia.
+  Qed.
+
+  Lemma convert_ccfb_distinct rt : forall bs, NoDup (map (fun b : rblock => fst (fst b)) bs) ->
+    convert_ccfb rt bs = map (fun b : rblock => (fst (fst b), convert_mblocks rt (snd (fst b)) (snd b))) bs.
+  Proof.
+    induction bs as [|[[ssrc begin] mbs] bs IH]; intros Hnd; [reflexivity|].
+    cbn [map fst] in Hnd. apply NoDup_cons_iff in Hnd as [Hnin Hnd].
+    cbn [convert_ccfb map fst snd]. rewrite IH by exact Hnd.
+    replace (existsb _ _) with false; [reflexivity|]. symmetry. apply not_true_is_false. intros He.
+    apply existsb_exists in He as (e & He & Heq). apply in_map_iff in He as ([[s2 b2] m2] & <- & Hin).
+    cbn [fst] in Heq. apply Z.eqb_eq in Heq. subst s2. apply Hnin. apply in_map_iff. exists (ssrc, b2, m2). auto.
+  Qed.
+
+  (* what rtpfb extracts for one stream *)
+  Definition stream_facks (rt ref B : Z) (s : slog) : Z * list fack :=
+    (sl_ssrc s,
+     match sl_log s with
+     | [] => []
+     | _ => map (stream_fack rt ref (trunc_log s B)) (zrange (trunc_next s B) (range_cnt s B))
+     end).
+
+  Theorem roundtrip_rfc8888_rtpfb_metrics rt now B r r' rep :
+    keys_ok r -> rec_metrics atok r now B = (r', rep) ->
+    convert_ccfb rt rep = map (fun ks : Z * slog => stream_facks rt now B (snd ks)) r.
+  Proof.
+    intros Hk H. destruct (rec_metrics_keys _ _ _ _ _ H Hk) as (_ & _ & Hb).
+    rewrite convert_ccfb_distinct by (rewrite Hb; apply sorted_NoDup, Hk).
+    rewrite (rec_metrics_blocks atok _ _ _ _ _ H), map_map. apply map_ext. intros [k s]. cbn [snd].
+    unfold stream_facks. destruct (sl_log s) as [|e l] eqn:El.
+    - rewrite metrics_after_empty by exact El. reflexivity.
+    - destruct (roundtrip_rfc8888_rtpfb_block atok Hexact rt s now B) as [H1 H2]; [congruence|].
+      cbv zeta in H1, H2. rewrite H1, H2. reflexivity.
+  Qed.
+
+  (* reachable recorder states *)
+  Definition rec_final (r : recorder) (ops : list c08op) : recorder :=
+    fold_left (fun r o => fst (rec_step atok r o)) ops r.
+
+  Lemma rec_step_keys r o : keys_ok r -> keys_ok (fst (rec_step atok r o)).
+  Proof.
+    intros Hk. destruct o as [ts ssrc seq ecn|now maxSize|now budget]; cbn [rec_step].
+    - apply rec_add_keys_ok, Hk.
+    - unfold rec_build. destruct r as [|x tl]; [exact Hk|].
+      destruct (rec_metrics atok (x :: tl) now _) as [r' rep] eqn:E. cbn [fst].
+      apply (rec_metrics_keys _ _ _ _ _ E Hk).
+    - destruct (rec_metrics atok r now budget) as [r' rep] eqn:E. cbn [fst].
+      apply (rec_metrics_keys _ _ _ _ _ E Hk).
+  Qed.
+
+  Lemma rec_final_keys : forall ops r, keys_ok r -> keys_ok (rec_final r ops).
+  Proof.
+    induction ops as [|o ops IH]; intros r Hk; cbn [rec_final fold_left]; [exact Hk|].
+    apply IH, rec_step_keys, Hk.
+  Qed.
+
+  (* BuildReport in every state reachable by AddPacket / BuildReport calls *)
+  Theorem roundtrip_rfc8888_rtpfb_build rt ops now maxSize r' rep :
+    let r := rec_final [] ops in
+    rec_build atok r now maxSize = (r', rep) ->
+    convert_ccfb rt rep =
+    map (fun ks : Z * slog => stream_facks rt now (per_stream_budget maxSize (Z.of_nat (length r))) (snd ks)) r.
+  Proof.
+    intros r H. assert (Hk : keys_ok r) by (apply rec_final_keys; split; constructor).
+    unfold rec_build in H. destruct r as [|x tl] eqn:Er; [inversion H; reflexivity|].
+    apply (roundtrip_rfc8888_rtpfb_metrics rt now _ _ _ _ Hk H).
+  Qed.
+End Report.
